@@ -1055,6 +1055,10 @@ def rt_cases(prop):
               [(2, 0), (2, 1), (3, 2)]),
             *[S('top', [J('a', duration=1, yields=i), J('b', duration=1, outcome='raise', yields=j), J('c'), J('d')],
                 [(2, 0), (2, 1), (3, 2)]) for i in range(3) for j in range(3)],
+            # a forever job that ends by itself in the same batch as a regular job while another regular job runs on
+            *[S('top', [J('f', duration=1, forever=True, outcome=o, yields=i), J('a', duration=1, yields=j), J('b', duration=3),
+                        J('c')], [(3, 2)]) for o in ('ret', 'raise') for i in range(2) for j in range(2)],
+            S('top', [S('n', [J('f', duration=1, forever=True), J('a', duration=1), J('b', duration=3)]), J('c')], [(1, 0)]),
             # a tolerated failure first, a critical one later, along chains of critical / non-critical schedulers
             S('top', [S('n1', [S('n2', [J('t', outcome='raise'), J('x', duration=2, critical=True, outcome='raise')],
                                  critical=True)], critical=True), J('y', duration=5)], critical=True),
@@ -1066,6 +1070,17 @@ def rt_cases(prop):
         ]
         for sp in fixed:
             yield {'kind': 'rt', 'prop': prop, 'spec': sp}
+        if prop == 'C06':
+            # a critical scheduler holding a tolerated job (returning / raising) and a critical job that raises later
+            # or in the same batch, for several iteration orders of its set of jobs, nested and at top level
+            for k_ in range(6):
+                for dx in (1, 2):
+                    for wrap in (False, True):
+                        def mk(o):
+                            inner = S('n', [J('t', duration=1, outcome=o), J('x', duration=dx, critical=True, outcome='raise'),
+                                            J('u', duration=3)], critical=True, salt=str(k_))
+                            return S('top', [inner, J('y', duration=4)], salt=str(k_)) if wrap else dict(inner, name='top')
+                        yield {'kind': 'rt-c06', 'prop': prop, 'spec': mk('ret'), 'spec2': mk('raise'), 'flipped': ['t']}
         for i in range(k):
             seed = rng.randrange(1 << 30)
             r2 = random.Random(seed)
